@@ -403,6 +403,58 @@ async def kwargs_cases(r: core.Run, deps, seed):
             r.add_violation(core.Violation(PROP, clause, "variant=%s: %s" % (variant, detail), case={"kind": "kwargs", "variant": variant}, mech=mech))
 
 
+async def history_cases(r: core.Run, deps, seed):
+    """Several subscriptions one after another on ONE client, each with its own extra headers: every connect call must carry the client's
+    headers merged with that call's own (nothing left over from earlier calls), and neither the client's nor the caller's dicts may change."""
+    import copy
+
+    rng = random.Random(seed)
+    vv = variable_variants(deps)[2]
+    for variant in ("plain", "otel", "otel+tracer"):
+        mod = deps.modules["async_otel" if variant.startswith("otel") else "async"]
+        cls = deps.clients["async_otel" if variant.startswith("otel") else "async"]
+        base_headers = {"Authorization": "Bearer t", "X-A": "1"}
+        kw: Dict[str, Any] = dict(ws_url="ws://example.test/graphql", ws_headers=base_headers, ws_origin="https://origin.test", http_client=shared_http_client())
+        if variant == "otel+tracer":
+            kw["tracer"] = make_tracer()
+        client = cls(**kw)
+        calls = [{"X-Call": "one", "X-A": "override-1"}, {}, {"X-Other": "two"}, None, {"X-Call": "four"}]
+        saved = mod.ws_connect
+        try:
+            for i, eh in enumerate(calls):
+                kinds = ["ack", "next", "complete"]
+                fg = FrameGen()
+                frames = [fg.make(k) for k in kinds]
+                fake = FakeConnect(frames, rng)
+                mod.ws_connect = fake
+                caller = copy.deepcopy(eh)
+                extra = {} if eh is None else {"extra_headers": eh}
+                got = []
+                async for d in client.execute_ws(QUERY, "S", vv[1], **extra):
+                    got.append(d)
+                r.evaluations += 1
+                r.count("history_subscriptions")
+                want = dict(base_headers)
+                want.update(caller or {})
+                hdrs = fake.calls[0][1].get("extra_headers", fake.calls[0][1].get("additional_headers")) if fake.calls else None
+                ok = True
+                if hdrs != want:
+                    ok = False
+                    r.add_violation(core.Violation(PROP, "connect-headers", "variant=%s subscription #%d on one client: headers %r expected %r (earlier calls used %r)" % (
+                        variant, i, hdrs, want, calls[:i]), ["ws.history"], {"kind": "history", "variant": variant}, mech="ws:history-headers"))
+                if eh != caller:
+                    ok = False
+                    r.add_violation(core.Violation(PROP, "caller-headers-untouched", "variant=%s: the caller's extra_headers changed from %r to %r" % (variant, caller, eh),
+                                                   ["ws.history"], {"kind": "history", "variant": variant}, mech="ws:history-caller-mutated"))
+                if ok:
+                    r.held += 1
+            if client.ws_headers != {"Authorization": "Bearer t", "X-A": "1"}:
+                r.add_violation(core.Violation(PROP, "client-headers-untouched", "variant=%s: client.ws_headers became %r" % (variant, client.ws_headers), ["ws.history"],
+                                               {"kind": "history", "variant": variant}, mech="ws:history-client-mutated"))
+        finally:
+            mod.ws_connect = saved
+
+
 async def nonnative_variables(r: core.Run, deps, seed):
     """Variables whose leaves need pydantic's JSON conversion (datetime) - the HTTP path handles them."""
     rng = random.Random(seed)
@@ -533,6 +585,7 @@ async def amain(r, tier, seed):
     thorough = tier == "thorough"
     await enumerate_sequences(r, deps, max_len=5 if thorough else 4, full_product_len=3 if thorough else 2, seed=seed)
     await kwargs_cases(r, deps, seed)
+    await history_cases(r, deps, seed)
     await nonnative_variables(r, deps, seed)
     await real_server(r, deps, adapter=False)
     await real_server(r, deps, adapter=True)
@@ -570,6 +623,10 @@ def replay(data) -> int:
             print("sent:", obs["fake"].conn.sent, "\nyields:", obs["yields"], "\noutcome:", obs["outcome"])
         elif case["kind"] == "real":
             await real_server(r, deps, adapter=case["adapter"])
+            for v in r.violations:
+                print(v["clause"], v["detail"])
+        elif case["kind"] == "history":
+            await history_cases(r, deps, 0)
             for v in r.violations:
                 print(v["clause"], v["detail"])
         elif case["kind"] == "datetime-var":
